@@ -1,6 +1,6 @@
 #!/bin/sh
-# usage: take_round2.sh C11   -> confirm /tmp/mut16/C11/MUTANTS/m* into /verif/seeded/C11-r16m*, then run the checks on them
+# usage: take_round2.sh C11   -> confirm /tmp/mut17/C11/MUTANTS/m* into /verif/seeded/C11-r17m*, then run the checks on them
 P=$1
 ids=""
-for m in 1 2 3; do d=/tmp/mut16/$P/MUTANTS/m$m; [ -d $d ] || continue; python3 /verif/tools/confirm_mutant.py $d $P-r16m$m 2>&1 | tail -1 | cut -c1-300; [ -d /verif/seeded/$P-r16m$m ] && ids="$ids $P-r16m$m"; done
+for m in 1 2 3; do d=/tmp/mut17/$P/MUTANTS/m$m; [ -d $d ] || continue; python3 /verif/tools/confirm_mutant.py $d $P-r17m$m 2>&1 | tail -1 | cut -c1-300; [ -d /verif/seeded/$P-r17m$m ] && ids="$ids $P-r17m$m"; done
 [ -n "$ids" ] && V=1 /verif/tools/runmut.py $ids | cut -c1-330
